@@ -6,7 +6,7 @@ import vlib
 from props import slots_common as sc
 d = json.load(open(sys.argv[1]))
 c = d["replay"]["case"]
-txt = "\n".join(["From EC Require Import Base.Prelude Base.Bytes Pdu.Frame Pdu.Slots Wire.Check.", "Local Open Scope N_scope.",
+txt = "\n".join(["From EC Require Import Base.Prelude Base.Bytes Pdu.Frame Pdu.Slots Pdu.View Pdu.Hist Wire.Check.", "Local Open Scope N_scope.",
   "Eval vm_compute in obs_history %s %d%%nat %d%%nat [%s]." % ("true" if c["full"] else "false", c["n"], c["cap"], "; ".join(sc.gal_op(o) for o in c["ops"]))])
 open("/tmp/diffcase.v", "w").write(txt)
 out = subprocess.run(["coqc", "-noglob", "-Q", vlib.COQ, "EC", "/tmp/diffcase.v"], capture_output=True, text=True).stdout
